@@ -39,7 +39,9 @@ ASSUMPTIONS = [
 REAL = ["dissect.cstruct TokenParser, cstruct.add_type/resolve/typedef and constant tables"]
 STUBS = ["none"]
 
-BASE = ["uint8", "int8", "uint16", "int16", "uint32", "int32", "uint64", "char", "BYTE", "DWORD", "unsigned int", "WORD", "long long", "uint24"]
+BASE = ["uint8", "int8", "uint16", "int16", "uint32", "int32", "uint64", "char", "BYTE", "DWORD", "unsigned int", "WORD", "long long", "uint24",
+        "int48", "uint48", "int24"]
+TAGS = ["item", "hdr", "entry"]
 SYN = {"uint8": ["BYTE", "uint8_t", "UCHAR"], "uint16": ["WORD", "unsigned short", "uint16_t"], "uint32": ["DWORD", "unsigned int", "ULONG"],
        "int32": ["int", "long", "LONG"], "int16": ["short", "SHORT"], "uint64": ["QWORD", "unsigned long long"], "int8": ["INT8", "signed char"],
        "char": ["CHAR"], "BYTE": ["uint8"], "DWORD": ["uint32"], "WORD": ["uint16"], "unsigned int": ["uint32", "DWORD"],
@@ -131,6 +133,12 @@ def gen_case(rng: random.Random, tier: str):
                     body += [*tt, fn, ":", str(rng.randint(1, 3)), ";", "uint64", nid("f"), ";"]
                 elif r3 < 0.5 and kind != "union":
                     body += ["struct", "{", "uint8", nid("f"), ";", *tt, nid("f"), ";", "}", fn, ";"]
+                elif r3 < 0.62:
+                    # a nested structure with a tag from a small pool: unrelated definitions may each have their own 'struct item'
+                    inner = []
+                    for _k in range(rng.randint(1, 3)):
+                        inner += [rng.choice(["uint8", "uint16", "uint32", "int48", "char"]), nid("f"), ";"]
+                    body += ["struct", rng.choice(TAGS), "{", *inner, "}", rng.choice([fn, f"{fn}[2]", f"{fn}[2]", f"{fn}[3]"]), ";"]
                 else:
                     body += [*tt, fn, ";"]
             body.append("}")
